@@ -59,6 +59,17 @@ func (f *formatValidator) Applies(source interface{}, kind reflect.Kind) bool {
 		return false
 	}
 
+	if f.Format != "" {
+		// The format to check is the one this validator was built with: when validating the items of a
+		// parameter or header, source is the enclosing parameter or header, which has another format (or none).
+		switch source.(type) {
+		case *spec.Items, *spec.Parameter, *spec.Schema, *spec.Header:
+			return kind == reflect.String && f.KnownFormats.ContainsName(f.Format)
+		default:
+			return false
+		}
+	}
+
 	switch source := source.(type) {
 	case *spec.Items:
 		return kind == reflect.String && f.KnownFormats.ContainsName(source.Format)
